@@ -184,7 +184,7 @@ def run(tier, v):
     cfgs = ["Progress_quick.cfg", "ProgressSeq_quick.cfg"] if quick else ["Progress_thorough.cfg", "ProgressSeq_thorough.cfg"]
     cov["states"], cov["transitions"], cov["exhaustive_runs"] = 0, 0, {}
     for cfg in cfgs:
-        r = vlib.tlc("Progress", cfg, timeout=3000, heap="12g")
+        r = vlib.tlc("Progress", cfg, timeout=3000, heap="4g")
         if not r["ok"]:
             raise vlib.Infra("Progress model violates %s on the design level (%s):\n%s" % (r["violated"], cfg, r["out"][-3000:]))
         cov["states"] += r["distinct"]
@@ -199,9 +199,9 @@ def run(tier, v):
 
     # 2. impl -> spec
     out = os.path.join(vlib.scratch(), "c20tv")
-    params = ({"colstride": 7, "namestride": 10, "random": 300, "seqsample": True, "probes": 6, "probetimeout": 3}
+    params = ({"colstride": 7, "namestride": 10, "random": 300, "seqsample": True, "probes": 6, "probecpu": 2}
               if quick else
-              {"colstride": 1, "namestride": 2, "random": 6000, "seqsample": False, "probes": 24, "probetimeout": 5})
+              {"colstride": 1, "namestride": 2, "random": 6000, "seqsample": False, "probes": 24, "probecpu": 4})
     parts = 4 if quick else 8
     sums = _run_tv_driver(h, out, params, parts)
     files = []
@@ -231,7 +231,8 @@ def run(tier, v):
     sigs = set()
     for r in res:
         sigs |= _sigs(r["out"])
-    cov["tv_rungs_conforming"] = sorted({s[0] for s in sigs})
+    cov["tv_rungs_conforming"] = sorted({s[0] for s in sigs if s[0] > 0})
+    cov["tv_outcomes_conforming"] = sorted({s[2] for s in sigs if s[0] == 0} | {"rendered"})
     cov["tv_signatures_conforming"] = len(sigs)
     cov["driver_params"] = params
     ev0 = vlib.read_ndjson(files[0])
@@ -276,7 +277,7 @@ def run(tier, v):
     mdir = os.path.join(vlib.scratch(), "c20mbt")
     cs = vlib.run_driver(h, "c20_catalogue", mdir, {"maxwit": 24 if quick else 48}, extra_env=ENV)
     cat = os.path.join(mdir, "catalogue.ndjson")
-    g = vlib.tlc("ProgressGen", "ProgressGen_quick.cfg" if quick else "ProgressGen_thorough.cfg", timeout=3000, heap="12g",
+    g = vlib.tlc("ProgressGen", "ProgressGen_quick.cfg" if quick else "ProgressGen_thorough.cfg", timeout=3000, heap="4g",
                  extra_env={"VERIF_CATALOGUE": cat, "VERIF_SEED": str(vlib.seed())})
     if not g["ok"]:
         raise vlib.Infra("ProgressGen violates %s on the design level:\n%s" % (g["violated"], g["out"][-3000:]))
